@@ -59,6 +59,10 @@ pub struct File { path: String, pos: u64, append: bool }
 impl File {
     pub fn open<P: AsRef<str>>(p: P) -> io::Result<File> { OpenOptions::new().read(true).open(p) }
     pub fn metadata(&self) -> io::Result<Metadata> { metadata(&self.path) }
+    /// every write of the model reaches the "disk" at once: syncing adds nothing (and moves nothing out of a BufWriter)
+    pub fn sync_all(&self) -> io::Result<()> { Ok(()) }
+    pub fn sync_data(&self) -> io::Result<()> { Ok(()) }
+    pub fn set_len(&self, n: u64) -> io::Result<()> { if alive() { if let Some(i) = find(&self.path) { let d = &mut fs()[i].data; while d.len() as u64 > n { d.pop(); } while (d.len() as u64) < n { d.push(0); } } } Ok(()) }
     fn put(&self, buf: &[u8], at: u64) { if let Some(i) = find(&self.path) { let d = &mut fs()[i].data; let at = at as usize; while d.len() < at + buf.len() { d.push(0); } let mut j = 0; while j < buf.len() { d[at + j] = buf[j]; j += 1; } } }
 }
 impl Read for File { fn read(&mut self, buf: &mut [u8]) -> io::Result<usize> {
